@@ -30,13 +30,17 @@ NAMES = ["ma", "mb", "mc", "md"]
 STATUSES = ["ok", "ok", "ok", "ok", "missing", "syntax", "throws"]
 
 
+WHY = 'fn why(e) { if type(e) == ImportError { return "ImportError: " + e.context.split("\\n")[0]; } return String.from(type(e)); }'
+
+
 def module_source(name, spec):
     if spec["status"] == "syntax":
         return "var = ;\n"
-    L = ['print("enter %s");' % name, 'var secret = "%s-secret";' % name, 'var val = "%s";' % name,
+    L = [WHY, 'print("enter %s");' % name, 'var secret = "%s-secret";' % name, 'var val = "%s";' % name,
          "fn get_secret() { return secret; }",
          'try { print(main_only); } catch e { print("%s: importer globals are private"); }' % name,
-         'print("%s sees builtins " + String.from(type(1) == Num));' % name]
+         'print("%s sees builtins " + String.from(type(1) == Num));' % name,
+         'try { print("%s names " + String.from(StopIter) + String.from(Error) + String.from(TypeError) + String.from(ImportError) + String.from(Iter)); } catch e { print("%s cannot name a built-in class: " + e.context); }' % (name, name)]
     for t, site in spec["imports"]:
         L += import_stmt(name, t, site)
     if spec["status"] == "throws":
@@ -47,7 +51,7 @@ def module_source(name, spec):
 
 def import_stmt(owner, t, site):
     ok = 'print("%s sees " + %s.val);'
-    err = 'print("%s cannot import %s: " + String.from(type(e)));' % (owner, t)
+    err = 'print("%s cannot import %s: " + why(e));' % (owner, t)
     if site == "top":
         return ['try { import "%s"; %s } catch e { %s }' % (t, ok % (owner, t), err)]
     if site == "alias":
@@ -74,6 +78,7 @@ def reference(graph, main_imports):
         out.append("enter %s" % name)
         out.append("%s: importer globals are private" % name)
         out.append("%s sees builtins true" % name)
+        out.append("%s names <class StopIter><class Error><class TypeError><class ImportError><class Iter>" % name)
         for t, site in spec["imports"]:
             do_import(name, t, site)
         if spec["status"] == "throws":
@@ -81,12 +86,15 @@ def reference(graph, main_imports):
         out.append("leave %s" % name)
 
     def load(t):
-        """Returns None if the import succeeded, else the class name of the error value."""
+        """Returns None if the import succeeded, else the text that describes the error value."""
+        circular = "ImportError: Circular dependency encountered when importing module '%s'." % t
         if t in registry:
-            return None if registry[t] == "loaded" else "<class ImportError>"
+            return None if registry[t] == "loaded" else circular
         spec = graph.get(t)
-        if spec is None or spec["status"] in ("missing", "syntax"):
-            return "<class ImportError>"
+        if spec is None or spec["status"] == "missing":
+            return "ImportError: Unable to read file '%s.yl' (file not found)." % t
+        if spec["status"] == "syntax":
+            return "ImportError: Error compiling module:"
         registry[t] = "loading"
         try:
             body(t)
@@ -115,7 +123,7 @@ def reference(graph, main_imports):
 
 
 def main_source(main_imports):
-    L = ['var main_only = "only in main";', 'var secret = "main-secret";']
+    L = [WHY, 'var main_only = "only in main";', 'var secret = "main-secret";']
     for t, site in main_imports:
         L += import_stmt("main", t, site)
     L.append('print("main secret " + secret);')
